@@ -174,9 +174,15 @@ def lie_exp(x):
     return splinem.FG((("exp{%s}" % x.scale(Fraction(-1)).show(), -1),))
 
 
+def bsym(p, j, K):
+    """p-th u-derivative of the j-th cumulative basis function, a polynomial of degree K in u: identically zero for p > K"""
+    return Fraction(0) if p > K else sym("B%d_%d" % (p, j))
+
+
 class Row:
-    def __init__(self, p):
+    def __init__(self, p, K):
         self.p = p
+        self.K = K
 
     def show(self):
         return "U[%d]" % self.p
@@ -188,23 +194,26 @@ class Row:
         c = a[0]
         if not (isinstance(c, tuple) and c and c[0] == "col"):
             raise Unab("dot with %s" % show_val(c))
-        return sym("B%d_%d" % (self.p, c[1]))
+        return bsym(self.p, c[1], self.K)
 
     def m_transpose(self, M, a, t):
         return self
 
     def op_mul(self, M, a, b):
         if isinstance(a, Row) and isinstance(b, tuple) and b and b[0] == "col":
-            return sym("B%d_%d" % (a.p, b[1]))
+            return bsym(a.p, b[1], a.K)
         raise Unab("product with %s" % self.show())
 
 
 class URows:
+    def __init__(self, K):
+        self.K = K
+
     def show(self):
         return "U"
 
     def index(self, M, idx):
-        return Row(int(simp(idx[0])))
+        return Row(int(simp(idx[0])), self.K)
 
 
 class Bcum:
@@ -236,7 +245,7 @@ class X1Machine(Machine):
         self.global_env = g = mach.Env()
         g.bind("K", Cell(Fraction(K), True))
         f = self.funcs
-        f["monomial_derivatives"] = PyFunc(lambda M, v: URows())
+        f["monomial_derivatives"] = PyFunc(lambda M, v: URows(self.K))
         f["Identity"] = PyFunc(lambda M, v: splinem.ONE)
         f["dof"] = PyFunc(lambda M, v: Fraction(1))
         f["exp"] = PyFunc(lambda M, v: lie_exp(self.lie(v[0])))
@@ -293,7 +302,7 @@ def expected(K):
     w, a, jr = LieV(), LieV(), LieV()
     for j in range(1, K + 1):
         v = LieV({"v%d" % j: Fraction(1)})
-        B0, B1, B2, B3 = (sym("B%d_%d" % (p, j)) for p in range(4))
+        B0, B1, B2, B3 = (bsym(p, j, K) for p in range(4))
         E = lie_exp(v.scale(B0))
         g = g.mul(E)
         key = "Ad(%s)" % E.inv().show()
@@ -397,7 +406,16 @@ def check(rep, dump):
     else:
         diffs = args[0]
         want = ["log{%s}" % splinem.atom("C%d" % (i - 1)).inv().mul(splinem.atom("C%d" % i)).show() for i in range(1, K + 1)]
-        got = [next(iter(x.t)) if isinstance(x, LieV) and len(x.t) == 1 and list(x.t.values()) == [Fraction(1)] else show_val(x) for x in (diffs.items if isinstance(diffs, Vec) else [])]
+        def diff_key(x):
+            # g (-) h as this machine's rminus (a LieV atom) or as the free-group model's operator- (the symbol LOG{h^-1 g}): the same tangent
+            if isinstance(x, LieV) and len(x.t) == 1 and list(x.t.values()) == [Fraction(1)]:
+                return next(iter(x.t))
+            if not isinstance(x, (Fraction, LieV)) and hasattr(x, "normal"):
+                sv = splinem.poly_is_single_var(x.normal(mach._CONS))
+                if sv and sv[1] == 1 and sv[0].startswith("LOG{"):
+                    return "log{" + sv[0][4:]
+            return show_val(x)
+        got = [diff_key(x) for x in (diffs.items if isinstance(diffs, Vec) else [])]
         if got != want:
             bad = "the differences handed to cspline_eval_vs are %s; expected g_i (-) g_{i-1} = %s" % (got, want)
         elif not (isinstance(args[1], Bcum) and mach.num_equal(args[2], sym("u")) and all(isinstance(a, Opt) and a.cell is o.cell for a, o in zip(args[3:], opts))):
